@@ -59,7 +59,11 @@ func (e *Enc) staticWrites(fn *ssa.Function, blocks map[*ssa.BasicBlock]bool, w 
 				w.add(mv, e.comps[mv])
 			case *ssa.Alloc:
 				elem := in.Type().(*types.Pointer).Elem()
-				e.wholeComps(elem, w)
+				if !in.Heap {
+					w.add(localComp("", in), e.sortOf(elem))
+				} else {
+					e.wholeComps(elem, w)
+				}
 			case *ssa.MakeSlice:
 				el := in.Type().Underlying().(*types.Slice).Elem()
 				w.add(elemCompName(e, el), e.elemSort(el))
@@ -139,6 +143,13 @@ func (e *Enc) addrComps(addr ssa.Value, w *writeSet) {
 	case *ssa.Global:
 		elem := a.Type().(*types.Pointer).Elem()
 		w.add(globalCompName(a), e.sortOf(elem))
+	case *ssa.Alloc:
+		elem := a.Type().(*types.Pointer).Elem()
+		if !a.Heap {
+			w.add(localComp("", a), e.sortOf(elem))
+			return
+		}
+		e.wholeComps(elem, w)
 	default:
 		if pt, ok := addr.Type().Underlying().(*types.Pointer); ok {
 			e.wholeComps(pt.Elem(), w)
@@ -670,7 +681,7 @@ func (f *Frame) runDefers() {
 // frameFact: every location of component comp that was allocated at entry and is not listed in
 // excl is unchanged between states a (entry) and b.
 func (e *Enc) frameFact(comp string, a, b *State, excl []string) string {
-	if strings.HasPrefix(comp, "GHseen_") || strings.HasPrefix(comp, "GHdefer_") {
+	if strings.HasPrefix(comp, "GHseen_") || strings.HasPrefix(comp, "GHdefer_") || strings.HasPrefix(comp, "L_") {
 		return "" // ghost iteration / defer-registration state, not program memory
 	}
 	sortName := e.comps[comp]
